@@ -247,7 +247,7 @@ def resume_protocol(b):
           "contracts.c06_scheduler:Gen.throw": Logger("throw", "generator.throw", "yielded")}
   else:
     del LOG[:]
-    t.rv = {"value": rv}.get(mode, 5)
+    t.rv = {"value": rv, "exception": None}.get(mode, 5)
     t.re = exc if mode in ("exception", "function_exception") else None
     t.rf = {"function_value": rf_value, "function_exception": rf_exception, "function_abort": rf_abort}.get(mode)
     cs = {}
